@@ -57,7 +57,10 @@ REGEX_POOL = ["^[a-z]+$", "^[A-Z][a-z]*$", "^[0-9]{3}$", "^(foo|bar)$", "^a.c$",
               "^[#0-9a-f]+$", "[^#]*", "^[\\\\/]+$", "^[a-z:\\\\.]+$", "^[\\\\-]*$", "^[a-z\\-]+$", "^[0-9\\.]+$", "^[\\\\]+$", '^[^\\\\"]+$']
 SIMPLE_MEMBERS = ["REQ", "OPT", "TYPE[STRING]", "TYPE[NUMBER]", "TYPE[BOOLEAN]", "TYPE[LIST]", "DATE", "ISO8601", "DIR", "APPEND_ONLY", "RANGE[1,10]",
                   "MIN_LENGTH[0]", "MIN_LENGTH[2]", "MAX_LENGTH[5]", "CONST[X]", "CONST[5]", 'CONST["a b"]', "CONST[true]",
-                  "ENUM[]", "ENUM[,]", "ENUM[ ]", "ENUM[A,]", "ENUM[,A]", 'ENUM[""]', "CONST[]", 'CONST[""]']  # (blank members)
+                  "ENUM[]", "ENUM[,]", "ENUM[ ]", "ENUM[A,]", "ENUM[,A]", 'ENUM[""]', "CONST[]", 'CONST[""]',  # (blank members)
+                  # bounds and tags that the constraint reader accepts although they are not the usual kind
+                  "MAX_LENGTH[true]", "MIN_LENGTH[false]", "MAX_LENGTH[0]", "MIN_LENGTH[2]∧MAX_LENGTH[5]", "MAX_LENGTH[100000]",
+                  "TYPE[LITERAL]", "LANG[python]", 'LANG["c++"]', 'LANG["python"]', 'LANG[say"hi]', "LANG[tex\\math]", "LANG[C#]"]
 
 SYNTAX = {"expecting-name", "expecting-assign", "bad-escape", "unterminated-literal", "unterminated-class", "unbalanced-paren", "bad-repetition",
           "dangling-repetition", "expecting-newline", "unterminated"}
